@@ -13,5 +13,6 @@ CONSTANTS
   PhaseOn = {1, 2, 3, 4, 5}
   AllowCtrlC = FALSE
   MaxNFE = 1
+  AllowInvalid = FALSE
 INVARIANT Report
 CHECK_DEADLOCK FALSE
